@@ -236,3 +236,33 @@ Definition script_events (max : nat) (ops : list op) : option (list event) :=
   | Some (_, evs, _) => Some evs
   | None => None
   end.
+
+(* ------------------------------------------------------------------------------------------
+   Wiring of the configured limit to the runner (pkg/api/server/server.go,
+   pkg/api/goprobe/server/server.go, pkg/api/globalquery/server/server.go):
+
+     WithQueryRateLimit(r, b, maxConcurrent): server.queryRateMaxConcurrent = maxConcurrent;
+                                              if r > 0 { server.queryRateLimiter = rate.NewLimiter(r, b) }
+     QueryRateLimiter(): return queryRateMaxConcurrent, queryRateLimiter, queryRateLimiter != nil
+     registerRoutes():   maxConcurrentQueries, rateLimiter, enabled := server.QueryRateLimiter()
+                         if maxConcurrentQueries > 0 { sem := make(chan struct{}, maxConcurrentQueries)
+                                                       opts = append(opts, WithMaxConcurrent(sem)) }      *)
+
+Record cfg := mkCfg { rate_pos : bool;   (* max_req_per_sec > 0 *)
+                      burst : nat;
+                      max_conc : nat }.  (* max_concurrent *)
+
+Record srv := mkSrv { s_limiter : bool; s_maxc : nat }.
+
+Definition with_query_rate_limit (c : cfg) : srv := mkSrv (rate_pos c) (max_conc c).
+Definition query_rate_limiter (s : srv) : nat * bool := (s_maxc s, s_limiter s).
+(* capacity of the semaphore handed to the runner; None = no semaphore, unlimited *)
+Definition register_routes (s : srv) : option nat :=
+  let '(maxc, _) := query_rate_limiter s in if 0 <? maxc then Some maxc else None.
+
+Definition effective_max (c : cfg) : option nat := register_routes (with_query_rate_limit c).
+
+(* counter capacity used by the model for a script of nq queries: without a semaphore no acquisition
+   can ever fail, which is a counter that nq queries cannot fill *)
+Definition cap_or_unlimited (m : option nat) (nq : nat) : nat :=
+  match m with Some n => n | None => nq end.
